@@ -113,7 +113,8 @@ func ruleNotFoundOnlyFromStores(w *World, r *Run, rule string) {
 				if !ok || k.Value == nil || k.Int64() != 5 { // codes.NotFound
 					continue
 				}
-				if p := pkgPathOf(fn); p == pInmem || p == pSQL {
+				// the stores and the helpers they share (the persistence package tree)
+				if p := pkgPathOf(fn); p == pInmem || p == pSQL || strings.HasPrefix(p, pPersist) {
 					continue
 				}
 				bad++
@@ -341,8 +342,15 @@ func ruleUpdateCalledForRequestsOnly(w *World, r *Run, rule string) {
 		return
 	}
 	bad := false
+	// the adapter that hands requests on (an implementation of feeder.Witness.Update) may live anywhere: it is the request path
+	adapters := map[*ssa.Function]bool{}
+	if m := ifaceMethod(w, pFeeder, "Witness", "Update"); m != nil {
+		for _, f := range w.implementations(m) {
+			adapters[f] = true
+		}
+	}
 	for _, fn := range w.prodFns() {
-		if pkgPathOf(fn) != pWitness {
+		if pkgPathOf(fn) != pWitness || adapters[outermost(fn)] {
 			continue
 		}
 		for _, b := range fn.Blocks {
